@@ -58,7 +58,7 @@ COMPOUND = [
 EXPR_CTX = [("plain", "{e}"), ("binop-left", "{e} + z"), ("call-arg", "g({e})"), ("parens", "({e})"), ("ifexp-test", "y if {e} else z"),
             ("list-item", "[z, {e}]"), ("kw-value", "g(k={e})"), ("subscript-index", "z[{e}]"), ("comp-elt", "[{e} for q in z]"), ("fstring-field", "f'{{{e}}}'")]
 LAYOUTS = ["none", "trailing-comment", "comment-line-before", "redundant-parens", "bracket-linebreak", "backslash", "semicolon", "tab-indent", "blank-lines",
-           "two-comments-quoting-the-code", "bracket-two-comments-quoting-the-code"]
+           "two-comments-quoting-the-code", "bracket-two-comments-quoting-the-code", "after-formfeed-line", "after-string-with-line-separators"]
 
 
 def ind(s, n=4):
@@ -81,6 +81,11 @@ def apply_layout(stmt, layout, is_simple, expr=None):
         if expr is None or expr not in stmt:
             return None
         return stmt.replace(expr, "(\n    # first\n    # " + expr.split("\n")[0] + " again\n    " + expr + "\n)", 1)
+    if layout == "after-formfeed-line":
+        # characters that str.splitlines() treats as line ends but Python does not, before statements that end in strings
+        return "# page\n\x0c\n" + stmt + "\ntail = 'end'\nlast = 1"
+    if layout == "after-string-with-line-separators":
+        return "u = 'a\u2028b\x1cc\x85d'\n" + stmt + "\ntail = 'end'\nlast = 1"
     if layout == "blank-lines":
         return "\n\n" + stmt + "\n\n# tail\n"
     if layout == "semicolon":
@@ -120,7 +125,7 @@ class C08(Check):
     level = "exploration"
     rule = ("cases = modules built from 83 expression atoms (incl. single-letter names that are substrings of the adjacent keyword) x 10 expression contexts inside `x = ...`, 28 simple statements (with every "
             "expression atom in their hole at depth 1, a fixed atom at depth 2), 28 compound statements with every simple statement "
-            "as body, x 11 layout deviations (0 or 1 per module); evaluations = sub-checks per module: annotation succeeds, "
+            "as body, x 13 layout deviations (0 or 1 per module); evaluations = sub-checks per module: annotation succeeds, "
             "write_ast == source, every node with an interpreter position has a region, regions nest, region text == interpreter "
             "segment up to redundant parentheses/blanks (decorators included for definitions), region re-parses to the same node; "
             "non-trivial = modules with a layout deviation or depth-2 composition; distinct by source")
